@@ -32,7 +32,8 @@ NAMES = {"Closed": "Closed", "WaitConnAck": "Wait-Conn-Ack", "WaitICEA": "Wait-I
 BASE_EVENTS = ["ack", "nack", "cer", "cer-wrong-host", "cer-wrong-realm", "cer-missing-avp", "cer-extra-flag",
                "cea", "cea-wrong-host", "cea-wrong-realm", "cea-missing-avp", "cea-extra-flag",
                "dwr", "dwr-wrong-host", "dwr-pair", "dwa", "dpr", "dpr-wrong-host", "dpr-busy", "dpa",
-               "app-req", "app-ans", "misaddressed-req", "local-stop", "fin", "rst", "idle", "restart", "app-req-pair-dwr", "app-req-binary"]
+               "app-req", "app-ans", "misaddressed-req", "local-stop", "fin", "rst", "idle", "restart", "app-req-pair-dwr", "app-req-binary",
+               "dwr-retx", "cer-retx"]
 UNEXPECTED = {"cer-wrong-host", "cer-wrong-realm", "cer-missing-avp", "cer-extra-flag", "cea-wrong-host", "cea-wrong-realm",
               "cea-missing-avp", "cea-extra-flag", "dwr-wrong-host", "dpr-wrong-host", "misaddressed-req"}
 
@@ -42,9 +43,9 @@ GUIDE = {
     "WCA": ["ack", "ack", "ack", "nack"],
     "WICEA": ["cea", "cea", "cea", "cea-wrong-host", "cea-wrong-realm", "cea-missing-avp", "cea-extra-flag", "dwr", "dpr", "dpa", "dwa",
               "app-req", "app-ans", "fin", "rst"],
-    "ClosedS": ["cer", "cer", "cer", "cer", "cer-wrong-host", "cer-wrong-realm", "cer-missing-avp", "cer-extra-flag", "dwr", "dpr", "app-req",
+    "ClosedS": ["cer", "cer", "cer", "cer", "cer-retx", "cer-wrong-host", "cer-wrong-realm", "cer-missing-avp", "cer-extra-flag", "dwr", "dpr", "app-req",
                 "cea", "dwa", "dpa", "fin", "rst"],
-    "Open": ["dwr", "dwr", "dwr-pair", "dwr-wrong-host", "dwa", "dpr", "dpr-wrong-host", "dpr-busy", "dpa", "app-req", "app-req", "app-req-binary", "app-ans",
+    "Open": ["dwr", "dwr", "dwr-retx", "dwr-retx", "cer-retx", "dwr-pair", "dwr-wrong-host", "dwa", "dpr", "dpr-wrong-host", "dpr-busy", "dpa", "app-req", "app-req", "app-req-binary", "app-ans",
              "app-req-pair-dwr", "misaddressed-req", "local-stop", "fin", "rst", "idle", "cer", "cer-wrong-host", "cea", "cea-wrong-host"],
     "Closing": ["dpa", "dpa", "dpa", "fin", "rst", "dwr", "app-req", "dwa"],
     "Ended": ["restart"],
@@ -97,6 +98,9 @@ class Run:
         self.vs = []
         self.visited = set()
         self.requests = []                 # base requests the peer sent that must be answered: (cmd, hbh, e2e, generation)
+        self.optional = []                 # potentially re-transmitted (T flag) base requests: answering them is left open
+        self.req_log = []                  # both kinds in arrival order: (cmd, hbh, e2e, generation, optional)
+        self.peer_sent = []                # every base request the scripted peer has sent: (cmd, hbh, e2e)
         self.generation = 0
         self.delivered_expected = 0
         self.cer_seen = None
@@ -155,6 +159,11 @@ class Run:
                   w.sock in w.d._association.transport.selector.get_map(), 3.0)
             self.connected = True
 
+    def _req(self, cmd, hbh, e2e, gen):
+        self.requests.append((cmd, hbh, e2e, gen))
+        self.req_log.append((cmd, hbh, e2e, gen, False))
+        self.peer_sent.append((cmd, hbh, e2e))
+
     def applicable(self, e):
         p = self.poss
         if e == "restart":
@@ -165,7 +174,7 @@ class Run:
             return p == {"WaitConnAck"} and not self.connected
         if p == {"WaitConnAck"}:
             return False                      # nothing can arrive before the connection exists
-        if e in ("cer", "cer-wrong-host", "cer-wrong-realm", "cer-missing-avp", "cer-extra-flag"):
+        if e in ("cer", "cer-wrong-host", "cer-wrong-realm", "cer-missing-avp", "cer-extra-flag", "cer-retx"):
             # CER while the initiator waits (election, unimplemented per the statement) is excluded by construction
             return p <= {"Closed", "Open"} and not (self.role == "client" and p == {"Closed"})
         if e == "local-stop":
@@ -202,6 +211,28 @@ class Run:
             w.net.nack(w.net.pending_connects[-1])
             det = dict(next="Closed", out={})
             settle = 2.0
+        elif e in ("dwr-retx", "cer-retx"):
+            # a potentially re-transmitted request (T flag): it repeats the End-to-End identifier of the previous request of that
+            # command (possibly sent over an earlier connection of this node object) under a new Hop-by-Hop identifier
+            cmd = 280 if e == "dwr-retx" else 257
+            prev = next((r for r in reversed(self.peer_sent) if r[0] == cmd), None)
+            e2e_ = prev[2] if prev else e2e
+            hbh_ = hbh if not prev or hbh != prev[1] else (hbh ^ 0x00000100)
+            w.feed(peer_dwr(hbh_, e2e_, flags=0x90) if cmd == 280 else peer_cer(hbh_, e2e_, flags=0x90))
+            self.peer_sent.append((cmd, hbh_, e2e_))
+            if poss0 == {"Open"} or (poss0 == {"Closed"} and cmd == 257):
+                self.optional.append((cmd, hbh_, e2e_, self.generation))
+                self.req_log.append((cmd, hbh_, e2e_, self.generation, True))
+                nxt = {"Open"} if poss0 == {"Open"} else {"Closed", "Open"}
+                if poss0 == {"Closed"}:
+                    self.opened_after_cex = True            # a valid CER of the configured peer: opening on it is legitimate
+            elif poss0 == {"WaitICEA"}:
+                det = dict(next="Closed", out={})
+                settle = 2.0
+            elif poss0 == {"Closed"}:
+                det = dict(next="Closed", out={(280, False): 0, (257, False): 0})
+            else:
+                nxt = poss0 | {"Closed"}
         elif e.startswith("cer"):
             kw = {}
             if e == "cer-wrong-host":
@@ -214,7 +245,7 @@ class Run:
                 kw["flags"] = 0xC0
             w.feed(peer_cer(hbh, e2e, **kw))
             if e == "cer":
-                self.requests.append((257, hbh, e2e, self.generation))
+                self._req(257, hbh, e2e, self.generation)
                 if poss0 == {"Closed"}:
                     det = dict(next="Open", out={(257, False): 1})
                     self.opened_after_cex = True
@@ -254,11 +285,11 @@ class Run:
                 w.feed(peer_dwr(hbh, e2e))
             if poss0 == {"Open"}:
                 if e == "dwr":
-                    self.requests.append((280, hbh, e2e, self.generation))
+                    self._req(280, hbh, e2e, self.generation)
                     det = dict(next="Open", out={(280, False): 1})
                 elif e == "dwr-pair":
-                    self.requests.append((280, hbh, e2e, self.generation))
-                    self.requests.append((280, ev["hbh2"], ev["e2e2"], self.generation))
+                    self._req(280, hbh, e2e, self.generation)
+                    self._req(280, ev["hbh2"], ev["e2e2"], self.generation)
                     det = dict(next="Open", out={(280, False): 2})
                 else:
                     nxt = {"Open", "Closing", "Closed"}
@@ -288,7 +319,7 @@ class Run:
             settle = 6.0
             if poss0 == {"Open"}:
                 if e == "dpr":
-                    self.requests.append((282, hbh, e2e, self.generation))
+                    self._req(282, hbh, e2e, self.generation)
                     det = dict(next="Closed", out={(282, False): 1})
                 elif e == "dpr-busy":
                     # a DPR with another Disconnect-Cause is still a DPR from the configured peer: "a received DPR ... closes the
@@ -330,7 +361,7 @@ class Run:
                 if e == "misaddressed-req":
                     nxt = {"Open"}
                 elif e == "app-req-pair-dwr":
-                    self.requests.append((280, ev["hbh2"], ev["e2e2"], self.generation))
+                    self._req(280, ev["hbh2"], ev["e2e2"], self.generation)
                     det = dict(next="Open", out={(280, False): 1}, delivered=1)
                 else:
                     det = dict(next="Open", out={}, delivered=1)
@@ -365,6 +396,8 @@ class Run:
         else:
             self.poss = set(nxt)
         self.check_state(e, poss0)
+        if e == "cer-retx" and self.reported() == "Closed":
+            self.opened_after_cex = False
         after = self.written()
         new = after[len(before):] if after[:len(before)] == before else after
         if det is not None:
@@ -394,7 +427,7 @@ class Run:
                           f"delivered while model in {sorted(poss0)}")
         # unsolicited base answers are never emitted
         for cmd, lab in ((257, "CEA"), (280, "DWA"), (282, "DPA")):
-            allowed = sum(1 for r in self.requests if r[0] == cmd)
+            allowed = sum(1 for r in self.requests if r[0] == cmd) + sum(1 for r in self.optional if r[0] == cmd)
             if self.count(after, cmd, False) > allowed and e not in ("dwr-wrong-host", "dpr-wrong-host", "dpr-busy") and not e.startswith("cer-"):
                 self.viol("base answers answer exactly one received request", f"output/{lab}/unsolicited/{e}", f"{self.count(after, cmd, False)} > {allowed}")
         self.global_invariants(e)
